@@ -184,6 +184,82 @@ def _fold_function(fn):
     return changed
 
 
+def _only_bare_returns(fn):
+    return not any((isinstance(n, ast.Return) and n.value is not None) or isinstance(n, (ast.Yield, ast.YieldFrom))
+                   for n in ast.walk(fn))
+
+
+def unreturn(stmts):
+    """N5, for a function that returns nothing: `if c: S; return` followed by REST becomes `if c: S else: REST`, a
+    trailing bare return is dropped.  Returns the new statement list, or None when a return sits anywhere else."""
+    out = []
+    for i, st in enumerate(stmts):
+        if isinstance(st, ast.Return):
+            if st.value is not None:
+                return None
+            return out                               # the statements after a return are dead
+        if isinstance(st, ast.If):
+            body = unreturn(st.body)
+            orelse = unreturn(st.orelse)
+            if body is None or orelse is None:
+                return None
+            ends = bool(st.body) and isinstance(st.body[-1], ast.Return)
+            if ends and not st.orelse:
+                rest = unreturn(stmts[i + 1:])
+                if rest is None:
+                    return None
+                out.append(ast.If(test=st.test, body=body or [ast.Pass()], orelse=rest))
+                return out
+            if any(isinstance(n, ast.Return) for x in st.body + st.orelse for n in ast.walk(x)) and not (
+                    ends and st.orelse and isinstance(st.orelse[-1], ast.Return)):
+                # a return somewhere inside that does not end the branch: only the simple chain is handled
+                if any(isinstance(n, ast.Return) for x in body + orelse for n in ast.walk(x)):
+                    return None
+            out.append(ast.If(test=st.test, body=body or [ast.Pass()], orelse=orelse))
+            continue
+        if any(isinstance(n, ast.Return) for n in ast.walk(st)):
+            return None
+        out.append(st)
+    return out
+
+
+def inline_methods(cls, fn):
+    """N4: inside method `fn` of class `cls`, a statement `self._helper(plain args)` whose target is a method of the
+    same class that returns nothing (after N5) is replaced by the helper's statements with the parameters replaced
+    by the arguments.  In place; returns fn."""
+    methods = {n.name: n for n in cls.body if isinstance(n, ast.FunctionDef)}
+
+    def expand(stmts, depth):
+        out = []
+        for st in stmts:
+            for field in ('body', 'orelse', 'finalbody'):
+                b = getattr(st, field, None)
+                if isinstance(b, list) and b and isinstance(b[0], ast.stmt):
+                    setattr(st, field, expand(b, depth))
+            for h in getattr(st, 'handlers', []) or []:
+                h.body = expand(h.body, depth)
+            call = st.value if isinstance(st, ast.Expr) and isinstance(st.value, ast.Call) else None
+            f = call.func if call is not None else None
+            if (depth < 3 and isinstance(f, ast.Attribute) and isinstance(f.value, ast.Name) and f.value.id == 'self'
+                    and f.attr in methods and f.attr != fn.name and f.attr.startswith('_') and not f.attr.startswith('__')
+                    and not call.keywords and all(_plain(a) for a in call.args)):
+                m = methods[f.attr]
+                a = m.args
+                params = [x.arg for x in a.args][1:]
+                if (not m.decorator_list and not (a.vararg or a.kwarg or a.kwonlyargs or a.defaults)
+                        and len(params) == len(call.args) and _only_bare_returns(m)):
+                    body = unreturn(copy.deepcopy(_body(m)))
+                    if body is not None:
+                        env = dict(zip(params, call.args))
+                        body = [_Subst(env).visit(x) for x in body]
+                        out.extend(expand(body, depth + 1))
+                        continue
+            out.append(st)
+        return out
+    fn.body = expand(fn.body, 0)
+    return ast.fix_missing_locations(fn)
+
+
 def normalise(mod):
     """normalises a parsed module in place and returns it"""
     helpers = _helpers(mod)
